@@ -10,14 +10,15 @@
 (*   async_trait present => `async fn` kept, attribute on trait and impls  *)
 (***************************************************************************)
 EXTENDS TLC, Naturals, FiniteSets, Sequences, SequencesExt, Json, IOUtils
-CONSTANT DumpCases
+CONSTANTS DumpCases, MoreRets
 R == INSTANCE Req
 
 \* "fn-concrete": a function with a concrete dependency - its trait goes through a NESTED trait-mode invocation
 \* "fn-at" / "mod-at": the async_trait attribute below entrait on a function / a module: it belongs to what is generated and must
 \* not stay on the item (async_trait rejects functions and modules)
 Modes == {"fn", "fn-concrete", "mod", "trait-self", "di-static", "trait-ref-at", "di-dyn-at", "trait-self-at", "di-static-at", "fn-at", "mod-at"}
-Rets == {"unit", "owned", "borrow-deps", "borrow-arg", "generic"}
+\* (thorough tier: further return shapes - a tuple, a generic instantiation with two arguments, a 'static borrow)
+Rets == {"unit", "owned", "borrow-deps", "borrow-arg", "generic"} \cup (IF MoreRets THEN {"tuple", "result", "static"} ELSE {})
 AsyncTrait(m) == m \in {"trait-ref-at", "di-dyn-at", "trait-self-at", "di-static-at", "fn-at", "mod-at"}
 \* atargs: the async_trait attribute is written with arguments, `#[async_trait(?Send)]` (only in the async_trait modes)
 \* mockall: the `mockall` option is also given (its derivation is test-gated; the async rewrite must not depend on it)
@@ -28,9 +29,11 @@ Inputs == { i \in [mode : Modes, ret : Rets, nosend : BOOLEAN, atargs : BOOLEAN,
             /\ (i.atargs => AsyncTrait(i.mode))
             /\ (i.mockall => i.mode \in {"fn", "mod", "trait-self"} /\ i.ret \in {"unit", "owned"})
             /\ (AsyncTrait(i.mode) => ~i.nosend /\ i.ret \in {"unit", "owned", "borrow-arg"})
+            /\ (i.ret \in {"tuple", "result", "static"} => ~AsyncTrait(i.mode) /\ ~i.mockall /\ i.recv = "ref")
             /\ (i.ret = "borrow-deps" => i.mode \in {"fn", "fn-concrete", "mod"})
             /\ (i.ret = "generic" => i.mode \in {"fn", "fn-concrete", "mod", "trait-self"}) }
 RetText(r) == CASE r = "unit" -> "()" [] r = "owned" -> "String" [] r = "borrow-deps" -> "&'astr" [] r = "borrow-arg" -> "&'astr" [] r = "generic" -> "G"
+              [] r = "tuple" -> "(u8,String)" [] r = "result" -> "Result<u8,String>" [] r = "static" -> "&'staticstr"
 
 VARIABLES i, sig, pc
 vars == <<i, sig, pc>>
